@@ -83,6 +83,37 @@ func GenKey(sigType int, seed uint64) KeyPair {
 	panic("refmodel.GenKey: unsupported type")
 }
 
+// GenKeyShaped searches deterministic key pairs of the given type for a public key whose wire form
+// has a zero FIRST byte (shape 1) or a zero LAST byte (shape 2): encodings that lose a byte when an
+// implementation routes key material through an arbitrary-precision integer or trims it. For DSA
+// the full-width filter of GenKey is lifted (a 1024-bit Y with a zero top byte is a legal key).
+func GenKeyShaped(sigType int, seed uint64, shape int) KeyPair {
+	ok := func(pub []byte) bool {
+		switch shape {
+		case 1:
+			return pub[0] == 0
+		case 2:
+			return pub[len(pub)-1] == 0
+		}
+		return true
+	}
+	for k := uint64(0); ; k++ {
+		s := seed*100003 + k
+		var kp KeyPair
+		if sigType == SigDSA {
+			x := new(big.Int).SetBytes(seedBytes("dsa-shaped", s, 28))
+			x.Mod(x, new(big.Int).Sub(dsaQ, big.NewInt(1)))
+			x.Add(x, big.NewInt(1))
+			kp = KeyPair{sigType, fixed(new(big.Int).Exp(dsaG, x, dsaP), 128), fixed(x, 20)}
+		} else {
+			kp = GenKey(sigType, s)
+		}
+		if ok(kp.Pub) {
+			return kp
+		}
+	}
+}
+
 // Sign produces a wire-format signature of msg with kp.
 func Sign(kp KeyPair, msg []byte) []byte {
 	switch kp.Type {
